@@ -635,6 +635,45 @@ func (ex *Executor) evalCallSpec(e *SExpr, env *SpecEnv) (Val, error) {
 			return Val{}, fmt.Errorf("fresh() outside a postcondition")
 		}
 		return specBool(And(Gt(a.T, env.oldAlloc), Le(a.T, env.st.alloc))), nil
+	case "addr":
+		// address of a struct-typed field of a pointed-to struct (also through embedded structs): addr(p.f)
+		if len(e.Args) != 1 || e.Args[0].Kind != "sel" {
+			return Val{}, fmt.Errorf("addr needs a field selector")
+		}
+		base, err := ex.evalSpec(e.Args[0].Args[0], env)
+		if err != nil {
+			return Val{}, err
+		}
+		if base.Ty == nil {
+			return Val{}, fmt.Errorf("addr: untyped base")
+		}
+		pt, ok := base.Ty.Underlying().(*types.Pointer)
+		if !ok {
+			return Val{}, fmt.Errorf("addr: base of %s is not a pointer", e.Args[0])
+		}
+		owner := pt.Elem()
+		ref := base.T
+		s := structOf(owner)
+		if s == nil {
+			return Val{}, fmt.Errorf("addr: base does not point to a struct")
+		}
+		idx, emb := findField(s, e.Args[0].Name)
+		if idx < 0 {
+			return Val{}, fmt.Errorf("addr: no field %s", e.Args[0].Name)
+		}
+		path := emb
+		if path == nil {
+			path = []int{idx}
+		}
+		for _, step := range path {
+			f := structOf(owner).Field(step)
+			if !isStruct(f.Type()) {
+				return Val{}, fmt.Errorf("addr: field %s is not a struct", f.Name())
+			}
+			ref = ex.subRef(env.st, owner, f.Name(), ref)
+			owner = f.Type()
+		}
+		return Val{T: ref, Ty: types.NewPointer(owner)}, nil
 	case "allocated":
 		a, err := argv(0)
 		if err != nil {
